@@ -35,6 +35,8 @@ def parseOp (nk : Nat) (s : String) : Option Op :=
   | ['D', k] => (digit? k).bind fun k => if k < nk then some (.del k) else none
   | ['d', k] => (digit? k).bind fun k => if k < nk then some (.cdel k) else none
   | ['R', k] => (digit? k).bind fun k => if k < nk then some (.refs k) else none
+  | ['Z', k] => (digit? k).bind fun k => if k < nk then some (.lsp k) else none
+  | ['P', k] => (digit? k).bind fun k => if k < nk then some (.lsp k) else none
   | ['G'] => some .range
   | ['c'] => some .closeAll
   | ['O', k, 'o'] => (digit? k).bind fun k => if k < nk then some (.ln k true) else none
@@ -71,13 +73,32 @@ def numIn (s : String) (lo hi : Nat) : Bool :=
 def clientProg (s : String) : Bool :=
   s.toList.all fun c => c == 'O' || c == 'o' || c == 'f' || c == 'c' || c == ',' || c == ';' || c == '-' || (digit? c).isSome
 
-def plainProg (s : String) : Bool := s.toList.all fun c => c != 'O' && c != 'c'
+def plainProg (s : String) : Bool := s.toList.all fun c => c != 'O' && c != 'c' && c != 'P'
+
+/-- `hosts` lines: only `P<k>` and `c` -/
+def hostsProg (s : String) : Bool :=
+  s.toList.all fun c => c == 'P' || c == 'c' || c == ',' || c == ';' || c == '-' || (digit? c).isSome
 
 def handle : List String → String
   | ["stress", seed, nt, iters, nk, mode] =>
     -- un-forced run: nothing to compare but the well-formedness of the line
     if numIn seed 0 999999999 && numIn nt 2 8 && numIn iters 1 5000 && numIn nk 1 4 && (mode == "a" || mode == "b")
     then "stress-ok" else "bad-op"
+  | ["hosts", nk, progs, sched] =>
+    -- the same model, driven through the real reverse-proxy client of the hosts pool:
+    -- `P<k>` Handler.provisionUpstream of an upstream with dial address k (fillHost → LoadOrStore of a
+    -- *Host, which is not a Destructor), `c` Handler.Cleanup (Delete for every provisioned upstream)
+    if !hostsProg progs then "bad-op" else
+    match parseNk nk with
+    | none => "bad-op"
+    | some nk =>
+      match parseProgs nk progs with
+      | none => "bad-op"
+      | some ps =>
+        if ps.any (fun p => p.dropLast.contains .closeAll) then "bad-op" else
+        match parseSched ps.length sched with
+        | none => "bad-op"
+        | some sc => runCase nk ps sc
   | ["writers", nk, progs, sched] =>
     -- the same model, driven through the real log-writer client (Logging.openWriter / closeLogs):
     -- `O<k>o` / `O<k>f` openWriter with key k whose OpenWriter succeeds / fails, `c` closeLogs
